@@ -140,7 +140,8 @@ class Check:
         if bad:
             self.proof_error = (self.proof_error or "") + " forbidden vernacular: " + ", ".join(bad[:10])
         if self.tier == "thorough" and self.proof_error is None and os.environ.get("VERIF_COQCHK", "1") == "1":
-            vo = os.path.join(COQ_DIR, "theories", "Props", f"{self.pid}.vo")
+            # relative to cwd=COQ_DIR: coqchk 8.16 does not resolve an absolute .vo path against a relative -Q mapping
+            vo = os.path.join("theories", "Props", f"{self.pid}.vo")
             r = subprocess.run(
                 ["timeout", "1500", "coqchk", "-silent", "-o", "-Q", "theories", "LiquidVerif", vo],
                 cwd=COQ_DIR, capture_output=True, text=True,
